@@ -1129,6 +1129,8 @@ static void run_line (const std::string& line_in)
       if (o != "app" && (after.f.cap != before_x.f.cap || after.f.data != before_x.f.data)) wmsg ("C05", o + ": threw (" + exc + ") and capacity()/data() changed");
       std::size_t blocks_now = 0; for (std::size_t i = 0; i < g_blocks.size (); ++i) if (g_blocks[i].heap) ++blocks_now;
       if (o != "app" && blocks_now != blocks_before) wmsg ("C05", o + ": threw (" + exc + ") and the number of live blocks changed");
+      if (reg_internal_count () != objs_before)
+        wmsg ("C05", o + ": threw (" + exc + ") and leaked element objects (" + std::to_string (reg_internal_count ()) + " alive, " + std::to_string (objs_before) + " before the call)");
       if (o == "appc" || o == "appm")
       {
         // append (small_vector&&) additionally leaves its SOURCE unchanged (none of its elements moved-from)
